@@ -42,6 +42,19 @@ func checkSVD(c matCase, o *kit.Obs) error {
 	c.label(o)
 	m := c.dense()
 	u, s, v := libSVD(c, m)
+	if c.MagLog2 != 0 {
+		mag := math.Ldexp(1, c.MagLog2)
+		scaled := dmat{n: m.n, a: append([]float64(nil), m.a...)}
+		for i := range scaled.a {
+			scaled.a[i] *= mag
+		}
+		u, s, v = libSVD(c, scaled)
+		s = dmat{n: s.n, a: append([]float64(nil), s.a...)}
+		for i := range s.a {
+			s.a[i] /= mag
+		}
+		o.Label("rescaled")
+	}
 	mult := clusterMult(absAll(c.S), clusterGap)
 	tol := svdTol[c.N][mult]
 	tag := fmt.Sprintf("svd%d/m%d/", c.N, mult)
